@@ -119,11 +119,12 @@ def pick_targs(rng, nparams, used):
         if r < 0.5 and nparams > 1:
             base.reverse()
         elif r < 0.8:
-            k = rng.randrange(nparams)
+            aux = [q for q in range(nparams) if base[q].startswith("aux")]
+            k = rng.choice(aux) if aux else rng.randrange(nparams)     # prefer the same-named class of the other module
             base[k] = {"auxA": "auxB", "auxB": "auxA", "int": "str", "str": "int", "listint": "int"}[base[k]]
         if tuple(base) not in used or rng.random() < 0.3:
             return base
-    return [rng.choice(["int", "str", "int", "str", "listint", "auxA", "auxB"]) for _ in range(nparams)]
+    return [rng.choice(["int", "str", "listint", "auxA", "auxB", "auxA", "auxB"]) for _ in range(nparams)]
 
 
 def gen_family(rng, max_classes=5, focus=None) -> dict:
@@ -213,6 +214,12 @@ def gen_family(rng, max_classes=5, focus=None) -> dict:
                     t[3] = pick_targs(rng, classes[j]["generic"], used.setdefault(j, []))
                     used[j].append(tuple(t[3]))
     # a subclass whose parent (transitively) forward-references would be postponed as well: allowed.
+    if focus == "apc":
+        # Config.allow_postponed_evaluation = False: an unresolved reference at the class statement raises instead of
+        # postponing (unless lazy_compilation installs the stub first)
+        for c in classes:
+            if c["kind"] == "mixin" and rng.random() < 0.5:
+                c["apc"] = False
     return {"classes": classes}
 
 
@@ -254,6 +261,26 @@ def random_order(fam: dict, rng) -> list[int]:
         order.append(i)
         done.add(i)
     return order
+
+
+def predict_creation(fam: dict, order: list[int], lazy: list[bool]):
+    """index of the class whose class statement raises UnresolvedTypeReferenceError, or None: the first class in
+    definition order that is compiled at creation (a mixin), is not lazy, has Config.allow_postponed_evaluation = False
+    and names (not typing.Self) a class that is not bound yet - itself, a later one, or one that never exists
+    (mirror of LazyModel.build / step Define; the model itself is compared with the real classes in Coq)"""
+    cl = fam["classes"]
+    done = set()
+    for i in order:
+        c = cl[i]
+        root = c
+        while root["parent"] is not None:
+            root = cl[root["parent"]]
+        if root["kind"] == "mixin" and not (lazy[i] and c["kind"] == "mixin") and not c.get("apc", True):
+            for _, t in all_fields(fam, i):
+                if t[0] == "ghost" or (t[0] == "dc" and not (len(t) > 4 and t[4] == "Self") and t[1] not in done):
+                    return i
+        done.add(i)
+    return None
 
 
 def all_fields(fam, i, target=None):
@@ -341,6 +368,8 @@ def render(fam: dict, order: list[int], lazy: list[bool]) -> str:
             out.append(f"        code_generation_options = [{', '.join(opts)}]")
             if c.get("baf"):
                 out.append("        allow_deserialization_not_by_alias = True")
+            if not c.get("apc", True):
+                out.append("        allow_postponed_evaluation = False")
             if c.get("cdial"):
                 out.append(f"        dialect = {c['cdial']}")
             if c.get("ctx"):
